@@ -33,6 +33,7 @@ import (
 	sdkmath "cosmossdk.io/math"
 	wasmtypes "github.com/CosmWasm/wasmd/x/wasm/types"
 	abci "github.com/cometbft/cometbft/abci/types"
+	codectypes "github.com/cosmos/cosmos-sdk/codec/types"
 	"github.com/cosmos/cosmos-sdk/crypto/keys/ed25519"
 	"github.com/cosmos/cosmos-sdk/crypto/keys/secp256k1"
 	sdk "github.com/cosmos/cosmos-sdk/types"
@@ -44,7 +45,11 @@ import (
 	stakingtypes "github.com/cosmos/cosmos-sdk/x/staking/types"
 	"github.com/cosmos/gogoproto/proto"
 
+	"verifharness/c17/txutil"
 	. "verifharness/hx"
+
+	"github.com/NibiruChain/nibiru/v2/app/ante"
+	"github.com/NibiruChain/nibiru/v2/x/evm"
 )
 
 const (
@@ -67,7 +72,8 @@ type node struct {
 }
 
 type txIn struct {
-	Dt     int    `json:"dt"` // seconds since the previous block
+	Dt     int    `json:"dt"`            // seconds since the previous block
+	Ext    string `json:"ext,omitempty"` // "" | evm (ExtensionOptionsEthereumTx) | other (an unknown extension option)
 	Signer int    `json:"signer"`
 	Msgs   []node `json:"msgs"`
 }
@@ -253,7 +259,7 @@ func (w *world) build(n node) (sdk.Msg, error) {
 		if err != nil {
 			return nil, err
 		}
-		return govv1.NewMsgSubmitProposal(ms, Unibi(10_000_000), w.addr(n.G).String(), "", "t", "s")
+		return govv1.NewMsgSubmitProposal(ms, Unibi(10_000_000), w.addr(n.G).String(), "m", "t", "s")
 	}
 	return nil, fmt.Errorf("unknown node kind %q", n.K)
 }
@@ -325,7 +331,15 @@ func (w *world) runTx(tx txIn) txObs {
 		seq = acc.GetSequence()
 	}
 	var r abci.ResponseDeliverTx
-	if p := Recover(func() { r = c.DeliverCosmos(w.users[tx.Signer], 40_000_000, Unibi(1_000_000), msgs...) }); p != "" {
+	var ext *codectypes.Any
+	switch tx.Ext {
+	case "evm":
+		ext, _ = codectypes.NewAnyWithValue(&evm.ExtensionOptionsEthereumTx{})
+	case "other":
+		// a registered message type that is not a known extension option
+		ext, _ = codectypes.NewAnyWithValue(&banktypes.MsgSend{})
+	}
+	if p := Recover(func() { r = txutil.Deliver(c, w.users[tx.Signer], 40_000_000, Unibi(1_000_000), ext, msgs...) }); p != "" {
 		r = abci.ResponseDeliverTx{Code: 9998, Log: "panic: " + p}
 	}
 	return w.observe(r, seq, tx.Signer)
@@ -564,7 +578,7 @@ func TestC17(t *testing.T) {
 	defer em.Close()
 	run := func(ci caseIn) {
 		obs := runCase(t, ci)
-		em.Emit(ci, obs, nil)
+		em.Emit(ci, obs, map[string]interface{}{"cap": rawOf(ante.MAX_COMMISSION())})
 		if os.Getenv("C17_DEBUG") != "" {
 			for i, o := range obs {
 				bz, _ := json.Marshal(ci.Txs[i])
